@@ -190,6 +190,33 @@ pub fn judge(ctx: &Ctx, l: &mut Local, c: &Cfg, tag: &str) {
     if r4.code != Some(0) || r4.stdout != want {
         fail("parameter_file_reproduces_listing", json!({"exit": r4.code, "stderr": r4.stderr}));
     }
+    // run 4b: -o alone (no -p) and -i together with -p and -o: the remaining flag combinations
+    let mut a4 = c.args();
+    a4.extend(["-o".into(), "o3.json".into()]);
+    let r4b = run_cli(&dir, &a4);
+    l.evals += 1;
+    if r4b.code != Some(0) || std::fs::read(dir.join("o3.json")).unwrap_or_default() != o1 {
+        fail("output_flag_alone_gives_the_same_output", json!({"exit": r4b.code, "stderr": r4b.stderr}));
+    }
+    let r4c = run_cli(&dir, &["-i".to_string(), "p1.json".to_string(), "-p".to_string(), "p2.json".to_string(), "-o".to_string(), "o4.json".to_string()]);
+    l.evals += 1;
+    if r4c.code != Some(0) || std::fs::read(dir.join("o4.json")).unwrap_or_default() != o1 {
+        fail("input_file_with_all_flags_reproduces_output", json!({"exit": r4c.code, "stderr": r4c.stderr}));
+    }
+    // run 4d: start date given, end date omitted: the range is that single day (no dependence on today)
+    let mut a6: Vec<String> = c.args().into_iter().filter(|x| !x.starts_with("--end-date")).collect();
+    if let Some(i) = a6.iter().position(|x| x == "-n") {
+        a6.drain(i..i + 2);
+    }
+    a6.extend(["-o".into(), "o5.json".into(), "-p".into(), "p5.json".into()]);
+    let r6 = run_cli(&dir, &a6);
+    l.evals += 1;
+    let exp6 = prayer_times_dt_rng(&params, c.site().loc(), &DateRange::from(c.start..=c.start));
+    let got6 = serde_json::from_slice::<RangeResult>(&std::fs::read(dir.join("o5.json")).unwrap_or_default()).ok();
+    let pc6 = serde_json::from_slice::<ParamsConfig>(&std::fs::read(dir.join("p5.json")).unwrap_or_default()).ok();
+    if r6.code != Some(0) || got6.as_ref() != Some(&exp6) || pc6.map(|p| p.date_range) != Some(Some(DateRange::from(c.start..=c.start))) {
+        fail("start_date_alone_means_that_single_day", json!({"args": a6, "exit": r6.code, "dates_got": got6.map(|g| g.len())}));
+    }
     // run 5: a shorter range written over the same -o/-p paths must fully replace them (2-step sequence)
     if c.days > 2 {
         let mut c5 = c.clone();
@@ -254,8 +281,8 @@ pub fn rejected_lines() -> Vec<Vec<String>> {
 
 pub fn explore(ctx: &Ctx) {
     let quick = ctx.tier == Tier::Quick;
-    ctx.rule("every accepted configuration is one case = a sequence of 5 runs of the real binary (-o -p; -i -o; listing + -p over the existing file; -i listing; a shorter range over the same paths); every rejected command line is one case; all distinct, all non-trivial (each is judged against the library resp. the rejection contract)");
-    ctx.assume("dates are always given explicitly (the 'today' default is the one uncontrolled input)");
+    ctx.rule("every accepted configuration is one case = a sequence of 8 runs of the real binary (-o -p; -i -o; listing + -p over the existing file; -i listing; -o alone; -i -p -o; start date without end date; a shorter range over the same paths); every rejected command line is one case; all distinct, all non-trivial (each is judged against the library resp. the rejection contract)");
+    ctx.assume("the start date is always given explicitly (the 'today' default of an absent start date is the one uncontrolled input); an absent end date means the start date");
     ctx.assume("negative values are passed as --opt=value (clap rejects the space-separated form: an unaccepted command line, outside the property)");
     ctx.assume("400-day ranges only with |lat| <= 58.3; polar sites get <= 31 days (cost of failing nearest-good-day searches)");
     if !Path::new(&cli()).exists() {
